@@ -59,6 +59,22 @@ def PoolOK (pool : List UTxO) : Prop := ∀ u ∈ pool, Value.WF u.amount ∧ No
 
 theorem PoolOK.mono {a b : List UTxO} (h : PoolOK b) (hs : ∀ u ∈ a, u ∈ b) : PoolOK a := fun u hu => h u (hs u hu)
 
+/-- the pool hypothesis with non-negativity made optional: `PoolN True` is `PoolOK`, `PoolN False` asks for legal
+dicts only.  The lemmas below are proved once for both; coverage is concluded under `nn` only. -/
+def PoolN (nn : Prop) (pool : List UTxO) : Prop := ∀ u ∈ pool, Value.WF u.amount ∧ (nn → NonNegV u.amount)
+
+theorem PoolN.mono {nn : Prop} {a b : List UTxO} (h : PoolN nn b) (hs : ∀ u ∈ a, u ∈ b) : PoolN nn a :=
+  fun u hu => h u (hs u hu)
+theorem PoolN.ofOK {pool : List UTxO} (h : PoolOK pool) : PoolN True pool := fun u hu => ⟨(h u hu).1, fun _ => (h u hu).2⟩
+theorem PoolN.ofWF {pool : List UTxO} (h : ∀ u ∈ pool, Value.WF u.amount) : PoolN False pool :=
+  fun u hu => ⟨h u hu, False.elim⟩
+
+/-- coverage, concluded only when non-negativity is assumed -/
+def CoversIf (nn : Prop) (t a : Value) : Prop := nn → Covers t a
+theorem CoversIf.refl (nn : Prop) (a : Value) : CoversIf nn a a := fun _ => Covers.refl a
+theorem CoversIf.trans {nn : Prop} {a b c : Value} (h1 : CoversIf nn a b) (h2 : CoversIf nn b c) : CoversIf nn a c :=
+  fun h => (h1 h).trans (h2 h)
+
 /-- `amt` is a legal dict and holds exactly the sum of `sel` -/
 def IsSum (sel : List UTxO) (amt : Value) : Prop :=
   Value.WF amt ∧ amt.coin = sumBy coinOf sel ∧ ∀ p n, Value.qty amt p n = sumBy (qtyOf p n) sel
@@ -273,32 +289,33 @@ theorem Inv.sublist {pool rem rem' sel : List UTxO} {amt : Value} (h : Inv pool 
   have hsub : (sel ++ rem').Sublist (sel ++ rem) := (List.Sublist.refl sel).append hs
   exact ⟨(hsub.map _).nodup h.nodup, fun x hx => h.sub x (hsub.subset hx), h.sum⟩
 
-theorem Inv.nonneg {pool rem sel : List UTxO} {amt : Value} (h : Inv pool rem sel amt) (hp : PoolOK pool) :
-    NonNegV amt :=
-  nonneg_of_isSum h.sum (fun u hu => (hp u (h.sub u (List.mem_append_left _ hu))).2)
+theorem Inv.nonneg {nn : Prop} {pool rem sel : List UTxO} {amt : Value} (h : Inv pool rem sel amt)
+    (hp : PoolN nn pool) (hnn : nn) : NonNegV amt :=
+  nonneg_of_isSum h.sum (fun u hu => (hp u (h.sub u (List.mem_append_left _ hu))).2 hnn)
 
-theorem Inv.grow {pool rem sel : List UTxO} {amt : Value} (h : Inv pool rem sel amt) (hp : PoolOK pool)
-    {u : UTxO} (hu : u ∈ rem) : Covers amt (Value.add amt u.amount) :=
-  covers_add (Covers.refl _) h.sum.1 (hp u (h.sub u (List.mem_append_right _ hu))).1
-    (hp u (h.sub u (List.mem_append_right _ hu))).2
+theorem Inv.grow {nn : Prop} {pool rem sel : List UTxO} {amt : Value} (h : Inv pool rem sel amt)
+    (hp : PoolN nn pool) {u : UTxO} (hu : u ∈ rem) : CoversIf nn amt (Value.add amt u.amount) :=
+  fun hnn => covers_add (Covers.refl _) h.sum.1 (hp u (h.sub u (List.mem_append_right _ hu))).1
+    ((hp u (h.sub u (List.mem_append_right _ hu))).2 hnn)
 
 /-- what `select` returns is what the property asks for -/
-structure Good (pool : List UTxO) (total : Value) (sel : List UTxO) (change : Value) : Prop where
+structure Good (nn : Prop) (pool : List UTxO) (total : Value) (sel : List UTxO) (change : Value) : Prop where
   nodup : (sel.map UTxO.ref).Nodup
   sub : ∀ u ∈ sel, u ∈ pool
-  coverCoin : total.coin ≤ sumBy coinOf sel
-  coverQty : ∀ p n, Value.qty total p n ≤ sumBy (qtyOf p n) sel
+  coverCoin : nn → total.coin ≤ sumBy coinOf sel
+  coverQty : nn → ∀ p n, Value.qty total p n ≤ sumBy (qtyOf p n) sel
   changeCoin : change.coin = sumBy coinOf sel - total.coin
   changeQty : ∀ p n, Value.qty change p n = sumBy (qtyOf p n) sel - Value.qty total p n
 
 /-- first-phase result `sel1` (covering) plus a top-up `sel2` taken from what was left -/
-theorem good_topup {pool rem1 sel1 : List UTxO} {amt1 total : Value} (h1 : Inv pool rem1 sel1 amt1)
-    (hc : Covers total amt1) (hp : PoolOK pool) (ht : Value.WF total)
+theorem good_topup {nn : Prop} {pool rem1 sel1 : List UTxO} {amt1 total : Value} (h1 : Inv pool rem1 sel1 amt1)
+    (hc : CoversIf nn total amt1) (hp : PoolN nn pool) (ht : Value.WF total)
     {sel2 : List UTxO} (hn2 : (sel2.map UTxO.ref).Nodup) (hs2 : ∀ u ∈ sel2, u ∈ rem1) :
-    Good pool total (sel1 ++ sel2) (Value.sub (addAll amt1 sel2) total) := by
+    Good nn pool total (sel1 ++ sel2) (Value.sub (addAll amt1 sel2) total) := by
   have hin : ∀ u ∈ sel2, u ∈ pool := fun u hu => h1.sub u (List.mem_append_right _ (hs2 u hu))
   have hsum := isSum_addAll sel2 h1.sum (fun u hu => (hp u (hin u hu)).1)
-  have hcov := hc.trans (covers_of_isSum_append h1.sum hsum (fun u hu => (hp u (hin u hu)).2))
+  have hcov : CoversIf nn total (addAll amt1 sel2) := fun hnn =>
+    (hc hnn).trans (covers_of_isSum_append h1.sum hsum (fun u hu => (hp u (hin u hu)).2 hnn))
   have hnd := h1.nodup
   rw [List.map_append, List.nodup_append] at hnd
   refine ⟨?_, ?_, ?_, ?_, ?_, ?_⟩
@@ -311,14 +328,14 @@ theorem good_topup {pool rem1 sel1 : List UTxO} {amt1 total : Value} (h1 : Inv p
     rcases List.mem_append.1 hu with h | h
     · exact h1.sub u (List.mem_append_left _ h)
     · exact hin u h
-  · rw [← hsum.2.1]; exact hcov.1
-  · intro p n; rw [← hsum.2.2]; exact hcov.2 p n
+  · intro hnn; rw [← hsum.2.1]; exact (hcov hnn).1
+  · intro hnn p n; rw [← hsum.2.2]; exact (hcov hnn).2 p n
   · simp only [Value.sub]; rw [hsum.2.1]
   · intro p n; rw [qty_sub _ _ _ _ hsum.1 ht, hsum.2.2]
 
-theorem good_plain {pool rem1 sel1 : List UTxO} {amt1 total : Value} (h1 : Inv pool rem1 sel1 amt1)
-    (hc : Covers total amt1) (hp : PoolOK pool) (ht : Value.WF total) :
-    Good pool total sel1 (Value.sub amt1 total) := by
+theorem good_plain {nn : Prop} {pool rem1 sel1 : List UTxO} {amt1 total : Value} (h1 : Inv pool rem1 sel1 amt1)
+    (hc : CoversIf nn total amt1) (hp : PoolN nn pool) (ht : Value.WF total) :
+    Good nn pool total sel1 (Value.sub amt1 total) := by
   have := good_topup h1 hc hp ht (sel2 := []) (by simp) (by simp)
   simpa [addAll] using this
 
@@ -428,13 +445,13 @@ theorem lfBase_inv {pool : List UTxO} (hp : ∀ u ∈ pool, Value.WF u.amount) (
   simp only [List.nil_append] at h3
   rw [h3, ← h4]; exact hperm
 
-theorem lfBase_ok {pool : List UTxO} (hp : PoolOK pool) (hn : (pool.map UTxO.ref).Nodup) (fee : Int)
+theorem lfBase_ok {nn : Prop} {pool : List UTxO} (hp : PoolN nn pool) (hn : (pool.map UTxO.ref).Nodup) (fee : Int)
     (outputs : List Output) (ho : ∀ o ∈ outputs, Value.WF o.amount) (limit : Option Int) (s : LfState)
     (h : lfBase fee pool outputs limit = .ok s) :
-    Inv pool s.avail s.sel s.amt ∧ Covers (requestSum fee outputs) s.amt ∧
+    Inv pool s.avail s.sel s.amt ∧ CoversIf nn (requestSum fee outputs) s.amt ∧
       (s.sel ++ s.avail).Perm pool := by
   obtain ⟨h1, h2, h3⟩ := lfBase_inv (fun u hu => (hp u hu).1) hn fee outputs limit s h
-  exact ⟨h1, le_sound (requestSum_spec fee outputs ho).1 (h1.nonneg hp) h2, h3⟩
+  exact ⟨h1, fun hnn => le_sound (requestSum_spec fee outputs ho).1 (h1.nonneg hp hnn) h2, h3⟩
 
 theorem requestSum_topUp (env : Env) (x : Int) : requestSum 0 [topUpOutput env x] = ⟨0 + x, []⟩ := rfl
 
@@ -448,11 +465,11 @@ theorem wf_topUp (env : Env) (x : Int) : ∀ o ∈ [topUpOutput env x], Value.WF
   exact MultiAsset.wf_nil
 
 /-- `LargestFirstSelector.select` returns a covering sub-multiset of the pool and the exact change -/
-theorem lfSelect_ok {pool : List UTxO} (hp : PoolOK pool) (hn : (pool.map UTxO.ref).Nodup) (env : Env)
+theorem lfSelect_ok {nn : Prop} {pool : List UTxO} (hp : PoolN nn pool) (hn : (pool.map UTxO.ref).Nodup) (env : Env)
     (outputs : List Output) (ho : ∀ o ∈ outputs, Value.WF o.amount) (limit : Option Int)
     (includeFee respectMin : Bool) (sel : List UTxO) (change : Value)
     (h : lfSelect env pool outputs limit includeFee respectMin = .ok (sel, change)) :
-    ∃ f, feeOf env includeFee = some f ∧ Good pool (requestSum f outputs) sel change := by
+    ∃ f, feeOf env includeFee = some f ∧ Good nn pool (requestSum f outputs) sel change := by
   unfold lfSelect at h
   cases hf : feeOf env includeFee with
   | none => simp [hf] at h
@@ -711,9 +728,9 @@ theorem nextRandom_err_ne_fuel {rem : List UTxO} {st st' : List Nat} {e : SelErr
         · cases h; decide
         · cases h
 
-theorem subsetLoop_ok {pool : List UTxO} (hp : PoolOK pool) (r : Value) :
+theorem subsetLoop_ok {nn : Prop} {pool : List UTxO} (hp : PoolN nn pool) (r : Value) :
     ∀ (fuel : Nat) (s s' : St), Inv pool s.rem s.sel s.amt → subsetLoop r fuel s = .ok s' →
-      Inv pool s'.rem s'.sel s'.amt ∧ Covers s.amt s'.amt ∧ Value.le r s'.amt = true := by
+      Inv pool s'.rem s'.sel s'.amt ∧ CoversIf nn s.amt s'.amt ∧ Value.le r s'.amt = true := by
   intro fuel
   induction fuel with
   | zero => intro s s' _ h; simp [subsetLoop] at h
@@ -721,7 +738,7 @@ theorem subsetLoop_ok {pool : List UTxO} (hp : PoolOK pool) (r : Value) :
     intro s s' hinv h
     simp only [subsetLoop] at h
     split at h
-    · next hle => cases h; exact ⟨hinv, Covers.refl _, hle⟩
+    · next hle => cases h; exact ⟨hinv, CoversIf.refl _ _, hle⟩
     · split at h
       · cases h
       · next i u rest hd =>
@@ -730,12 +747,12 @@ theorem subsetLoop_ok {pool : List UTxO} (hp : PoolOK pool) (r : Value) :
         obtain ⟨h1, h2, h3⟩ := ih _ _ hinv' h
         exact ⟨h1, (hinv.grow hp (List.mem_of_getElem? hi)).trans h2, h3⟩
 
-theorem phase1_ok {pool : List UTxO} (hp : PoolOK pool) (limit : Option Int) :
+theorem phase1_ok {nn : Prop} {pool : List UTxO} (hp : PoolN nn pool) (limit : Option Int) :
     ∀ (rs : List Value) (s s' : St), Inv pool s.rem s.sel s.amt → phase1 limit rs s = .ok s' →
-      Inv pool s'.rem s'.sel s'.amt ∧ Covers s.amt s'.amt ∧ ∀ r ∈ rs, Value.WF r → Covers r s'.amt := by
+      Inv pool s'.rem s'.sel s'.amt ∧ CoversIf nn s.amt s'.amt ∧ ∀ r ∈ rs, Value.WF r → CoversIf nn r s'.amt := by
   intro rs
   induction rs with
-  | nil => intro s s' hinv h; simp only [phase1] at h; cases h; exact ⟨hinv, Covers.refl _, by simp⟩
+  | nil => intro s s' hinv h; simp only [phase1] at h; cases h; exact ⟨hinv, CoversIf.refl _ _, by simp⟩
   | cons r rs ih =>
     intro s s' hinv h
     simp only [phase1] at h
@@ -749,7 +766,7 @@ theorem phase1_ok {pool : List UTxO} (hp : PoolOK pool) (limit : Option Int) :
         refine ⟨b1, a2.trans b2, ?_⟩
         intro x hx hwx
         rcases List.mem_cons.1 hx with rfl | hx
-        · exact (le_sound hwx (a1.nonneg hp) a3).trans b2
+        · exact CoversIf.trans (fun hnn => le_sound hwx (a1.nonneg hp hnn) a3) b2
         · exact b3 x hx hwx
 
 theorem improveStep_next {limit : Option Int} {ideal upper : Value} {rem sel : List UTxO} {amt : Value}
@@ -804,20 +821,20 @@ theorem improveStep_stop_ne_fuel {limit : Option Int} {ideal upper : Value} {rem
                 · cases h
               · cases h
 
-theorem improve_ok {pool : List UTxO} (hp : PoolOK pool) (limit : Option Int) (ideal upper : Value) :
+theorem improve_ok {nn : Prop} {pool : List UTxO} (hp : PoolN nn pool) (limit : Option Int) (ideal upper : Value) :
     ∀ (fuel : Nat) (rem sel : List UTxO) (amt : Value) (st : List Nat), Inv pool rem sel amt →
       (∃ rem', Inv pool rem' (improve limit ideal upper fuel rem sel amt st).sel
         (improve limit ideal upper fuel rem sel amt st).amt) ∧
-      Covers amt (improve limit ideal upper fuel rem sel amt st).amt ∧
+      CoversIf nn amt (improve limit ideal upper fuel rem sel amt st).amt ∧
       ∃ ext, (improve limit ideal upper fuel rem sel amt st).sel = sel ++ ext := by
   intro fuel
   induction fuel with
-  | zero => intro rem sel amt st hinv; exact ⟨⟨rem, hinv⟩, Covers.refl _, [], by simp [improve]⟩
+  | zero => intro rem sel amt st hinv; exact ⟨⟨rem, hinv⟩, CoversIf.refl _ _, [], by simp [improve]⟩
   | succ k ih =>
     intro rem sel amt st hinv
     simp only [improve]
     split
-    · exact ⟨⟨rem, hinv⟩, Covers.refl _, [], by simp⟩
+    · exact ⟨⟨rem, hinv⟩, CoversIf.refl _ _, [], by simp⟩
     · next i u take st' hs =>
       have hi := (improveStep_next hs).1
       split
@@ -848,12 +865,12 @@ theorem inv_dropSelected {pool rem rem' sel ext : List UTxO} {amt amt' : Value} 
     · exact h'.sub x (List.mem_append_left _ hs)
     · exact h.sub x (List.mem_append_right _ (hsub.subset hr))
 
-theorem phase2_ok {pool : List UTxO} (hp : PoolOK pool) (limit : Option Int) :
+theorem phase2_ok {nn : Prop} {pool : List UTxO} (hp : PoolN nn pool) (limit : Option Int) :
     ∀ (rs : List Value) (s s' : St), Inv pool s.rem s.sel s.amt → phase2 limit rs s = .ok s' →
-      Inv pool s'.rem s'.sel s'.amt ∧ Covers s.amt s'.amt := by
+      Inv pool s'.rem s'.sel s'.amt ∧ CoversIf nn s.amt s'.amt := by
   intro rs
   induction rs with
-  | nil => intro s s' hinv h; simp only [phase2] at h; cases h; exact ⟨hinv, Covers.refl _⟩
+  | nil => intro s s' hinv h; simp only [phase2] at h; cases h; exact ⟨hinv, CoversIf.refl _ _⟩
   | cons r rs ih =>
     intro s s' hinv h
     simp only [phase2] at h
@@ -924,10 +941,10 @@ theorem covers_of_split (t a : Value) (ht : Value.WF t) (na : NonNegV a)
       rw [e] at this
       exact this
 
-theorem riBase_ok {pool : List UTxO} (hp : PoolOK pool) (hn : (pool.map UTxO.ref).Nodup) (fee : Int)
+theorem riBase_ok {nn : Prop} {pool : List UTxO} (hp : PoolN nn pool) (hn : (pool.map UTxO.ref).Nodup) (fee : Int)
     (outputs : List Output) (ho : ∀ o ∈ outputs, Value.WF o.amount) (limit : Option Int) (stream : List Nat)
     (s : St) (h : riBase fee pool outputs limit stream = .ok s) :
-    Inv pool s.rem s.sel s.amt ∧ Covers (requestSum fee outputs) s.amt := by
+    Inv pool s.rem s.sel s.amt ∧ CoversIf nn (requestSum fee outputs) s.amt := by
   unfold riBase at h
   simp only at h
   split at h
@@ -935,17 +952,17 @@ theorem riBase_ok {pool : List UTxO} (hp : PoolOK pool) (hn : (pool.map UTxO.ref
   · next s1 h1 =>
     obtain ⟨a1, _, a3⟩ := phase1_ok hp limit _ _ _ (Inv.init hn) h1
     obtain ⟨b1, b2⟩ := phase2_ok hp limit _ _ _ a1 h
-    refine ⟨b1, covers_of_split _ _ (requestSum_spec fee outputs ho).1 (b1.nonneg hp) ?_⟩
+    refine ⟨b1, fun hnn => covers_of_split _ _ (requestSum_spec fee outputs ho).1 (b1.nonneg hp hnn) ?_⟩
     intro r hr
-    exact (a3 r ((sortDesc_perm _).mem_iff.2 hr) (wf_split _ r hr)).trans b2
+    exact ((a3 r ((sortDesc_perm _).mem_iff.2 hr) (wf_split _ r hr)).trans b2) hnn
 
 /-- `RandomImproveMultiAsset.select` returns a covering sub-multiset of the pool and the exact change, whatever
 the random choices -/
-theorem riSelect_ok {pool : List UTxO} (hp : PoolOK pool) (hn : (pool.map UTxO.ref).Nodup) (env : Env)
+theorem riSelect_ok {nn : Prop} {pool : List UTxO} (hp : PoolN nn pool) (hn : (pool.map UTxO.ref).Nodup) (env : Env)
     (outputs : List Output) (ho : ∀ o ∈ outputs, Value.WF o.amount) (limit : Option Int)
     (includeFee respectMin : Bool) (stream : List Nat) (sel : List UTxO) (change : Value)
     (h : riSelect env pool outputs limit includeFee respectMin stream = .ok (sel, change)) :
-    ∃ f, feeOf env includeFee = some f ∧ Good pool (requestSum f outputs) sel change := by
+    ∃ f, feeOf env includeFee = some f ∧ Good nn pool (requestSum f outputs) sel change := by
   unfold riSelect at h
   cases hf : feeOf env includeFee with
   | none => simp [hf] at h
